@@ -7,7 +7,9 @@ from ..lib.core import f2b, b2f
 from ..lib.watchdog import Watchdog
 
 TRUSTED = ['wall-clock limit of 20 s per call stands for "does not return" (a hang is a timeout, reported as such)',
-           'the table of while loops is regenerated from the source (harness/translate/loops.py)']
+           'the table of while loops is regenerated from the source (harness/translate/loops.py)',
+           'NumPy secant intersector: loop order and exits written by hand (OdakModel/Parametric.lean), body / guard / start values / defaults regenerated; '
+           'tied iterate for iterate (pass count observed through the surface-function calls)']
 ASSUMPTIONS = ['torch intersect_w_sphere is run with number_of_steps = 300 (it is a fixed-length for loop)']
 
 
